@@ -277,6 +277,56 @@ def run(chk):
                 continue
             chk.add(f'is_generalized_ppt{dims}: answers "passes" whenever every exact norm is <= 1 and the kernel error is <= 1e-12 (path {pi} returns {path.value})',
                     path.pc + path.facts, truth(path.value), key='is_generalized_ppt flags a separable state', replay=rp)
+    # ---- 3b. generalized PPT: the matrices whose nuclear norm is taken are the realignments the criterion is about - for every bipartition (rows, cols) of the
+    #          2N tensor indices the captured matrix has shape (prod of the row-index dimensions, prod of the column-index dimensions) and entry [r, c] = rho[multi-index]
+    for dims in ((2, 3), (3, 2), (2, 2)) if quick else ((2, 3), (3, 2), (2, 2), (2, 4), (2, 2, 3)):
+        chk.configurations += 1
+        D = int(np.prod(dims))
+        rho_s = H.cx_array('gp' + ''.join(map(str, dims)) + '_', (D, D))
+        caps = []
+
+        def nuc_cap(x, ord=None, axis=None, keepdims=False):
+            if ord != 'nuc':
+                return np.linalg.norm(x, ord=ord, axis=axis, keepdims=keepdims)
+            caps.append(x)
+            return 0.5                 # below the threshold: every bipartition is visited
+        fac = facade.make_np_facade(linalg={'norm': nuc_cap})
+        with facade.patched(fac):
+            S.new_ctx()
+            try:
+                E.is_generalized_ppt(rho_s, dims)
+                err = None
+            except Exception as e:      # noqa: BLE001
+                err = e
+        rp = ('c05', {'what': 'gppt', 'dims': list(dims)})
+        if err is not None:
+            chk.add(f'is_generalized_ppt{dims} raises {type(err).__name__}: {err}', [], ir.FALSE, key='is_generalized_ppt routing', replay=rp)
+            continue
+        import numqi.entangle.ppt as PPTM
+        dim_list = PPTM._is_generalized_ppt_dim_list(len(dims))
+        shape = tuple(dims) + tuple(dims)
+        T = A.plain(rho_s).reshape(shape)
+        ok = len(caps) == len(dim_list)
+        cl = [ir.bconst(ok)]
+        for (d0, d1), Mx in (zip(dim_list, caps) if ok else []):
+            rows = int(np.prod([shape[x] for x in d0])) if d0 else 1
+            cols = int(np.prod([shape[x] for x in d1])) if d1 else 1
+            Mp = A.plain(Mx) if isinstance(Mx, A.SymArray) else np.asarray(Mx, dtype=object)
+            if Mp.shape != (rows, cols):
+                cl.append(ir.FALSE)
+                continue
+            for r in range(rows):
+                ri = np.unravel_index(r, [shape[x] for x in d0]) if d0 else ()
+                for c in range(cols):
+                    ci = np.unravel_index(c, [shape[x] for x in d1]) if d1 else ()
+                    idx = [0] * len(shape)
+                    for a_, v_ in zip(d0, ri):
+                        idx[a_] = int(v_)
+                    for a_, v_ in zip(d1, ci):
+                        idx[a_] = int(v_)
+                    cl.append(H.eq_sc(Mp[r, c], T[tuple(idx)]))
+        chk.add(f'is_generalized_ppt{dims}: every bipartition of the tensor indices is realigned to a (prod row dims) x (prod col dims) matrix with entry [r,c] = rho[multi-index] ({len(dim_list)} bipartitions)',
+                [], ir.band_all(cl), key='is_generalized_ppt routing', replay=rp)
     chk.stub("np.linalg.norm(ord='nuc') -> value v with |v - t| <= 1e-12, t <= 1 the exact trace norm (t <= 1 is the theorem for separable states)")
     # ---- 4. get_negativity does not raise for admissible arguments
     chk.configurations += 1
